@@ -38,7 +38,7 @@ def workdir(pid):
 
 _STATS = re.compile(r"(\d+) states generated, (\d+) distinct states found, (\d+) states left on queue")
 _DEPTH = re.compile(r"The depth of the complete state graph search is (\d+)")
-_COV = re.compile(r"^<(\w+) line (\d+), col \d+ to line \d+, col \d+ of module (\w+)>: (\d+):(\d+)")
+_COV = re.compile(r"^<(\w+) line (\d+), col \d+ to line \d+, col \d+ of module (\w+)(?: \([\d ]+\))?>: (\d+):(\d+)")
 _INVVIOL = re.compile(r"Error: Invariant (\w+) is violated")
 _ACTVIOL = re.compile(r"Error: Action property (\w+) is violated")
 
